@@ -1956,11 +1956,29 @@ func (p *Peer) waitcondition(ctx context.Context, waitChan chan struct{}, req *R
 			continue
 		}
 
+		// the objects are updated by the update loop meanwhile, read them under the locks of their tables
+		lockedStores := make([]*DataStore, 0)
+		for _, tableName := range req.affectedTables(store.table) {
+			if Objects.Tables[tableName].virtual != nil {
+				continue
+			}
+			if s := data.Get(tableName); s != nil {
+				s.lock.RLock()
+				lockedStores = append(lockedStores, s)
+			}
+		}
+		unlockStores := func() {
+			for _, s := range lockedStores {
+				s.lock.RUnlock()
+			}
+		}
+
 		// get object to watch
 		found := false
 		if req.WaitObject != "" {
 			obj, ok := store.GetWaitObject(req)
 			if !ok {
+				unlockStores()
 				logWith(p, req).Warnf("WaitObject did not match any object: %s", req.WaitObject)
 				safeCloseWaitChannel(waitChan)
 
@@ -1976,6 +1994,7 @@ func (p *Peer) waitcondition(ctx context.Context, waitChan chan struct{}, req *R
 		} else if p.waitConditionTableMatches(store, req.WaitCondition) {
 			found = true
 		}
+		unlockStores()
 
 		// invert wait condition logic
 		if req.WaitConditionNegate {
